@@ -608,7 +608,6 @@ fn execute_write_count(db: &core::Db, cypher: &str, params: &Params) -> ApiResul
 }
 
 fn execute_write_in_txn(
-    db: &core::Db,
     txn: &mut core::WriteTxn<'static>,
     cypher: &str,
     params: &Params,
@@ -619,10 +618,11 @@ fn execute_write_in_txn(
         ));
     }
     let prepared = prepare(cypher).map_err(|e| ApiError::from_query_message(&e.to_string()))?;
-    let snapshot = db.snapshot();
     // A statement that fails must leave nothing in the transaction buffer: the caller may
     // still commit the transaction.
     txn.end_statement();
+    // Each statement observes the effects of the earlier statements of its transaction.
+    let snapshot = txn.snapshot();
     match prepared.execute_mixed(&snapshot, txn, params) {
         Ok((_rows, write_count)) => {
             txn.end_statement();
@@ -1051,8 +1051,8 @@ pub extern "C" fn ndb_txn_query(
             .as_mut()
             .ok_or_else(|| ApiError::execution("transaction is not active"))?;
         let db_handle = unsafe { db_handle_ref(txn_handle.db)? };
-        let db_ref = db_ref_from_handle(db_handle)?;
-        let _ = execute_write_in_txn(db_ref, inner, &cypher, &params)?;
+        let _ = db_ref_from_handle(db_handle)?;
+        let _ = execute_write_in_txn(inner, &cypher, &params)?;
         Ok(())
     })();
     match result {
